@@ -120,6 +120,7 @@ type Exec struct {
 	// StepHook, if set, runs (on the scheduler's stack, current thread) at every point.
 	StepHook func()
 	closed   []uintptr
+	keep     []interface{}
 	resets   []func()
 	Data     map[string]interface{}
 	TraceLog []string
@@ -134,6 +135,7 @@ type objState struct {
 	k           objKey
 	used        bool
 	last, reads uint64
+	ref         interface{} // keeps the object alive for the execution, so its address cannot be reused by another object
 }
 
 // objKey identifies a shared object: the two words of the interface value (pointers, uintptrs) or an interned string.
@@ -185,7 +187,7 @@ func (t *objTable) get(obj interface{}) (*objState, bool) {
 	k := t.key(obj)
 	s, found := t.find(k)
 	if !found {
-		s.k, s.used = k, true
+		s.k, s.used, s.ref = k, true, obj
 		t.n++
 	}
 	return s, found
@@ -424,9 +426,12 @@ func Tag(s string) {
 // Closed bookkeeping for channels (keyed by channel pointer).
 //
 //go:norace
-func (x *Exec) MarkClosed(p uintptr) {
+func (x *Exec) MarkClosed(p uintptr, keepAlive interface{}) {
 	if !x.IsClosed(p) {
 		x.closed = append(x.closed, p)
+		// the closed channel must stay reachable for the rest of the execution: otherwise its address
+		// could be reused by a new channel, which would then be taken for closed
+		x.keep = append(x.keep, keepAlive)
 	}
 }
 
